@@ -9,7 +9,48 @@ import (
 
 	"verifharness/runner"
 	"verifharness/world"
+
+	"github.com/MinterTeam/mhub2/module/app"
+	mhubtypes "github.com/MinterTeam/mhub2/module/x/mhub2/types"
 )
+
+// completeGenesis adds to an exported application state the pool entries and outgoing txs that this code's ExportGenesis
+// leaves out (recorded finding C15-export-omits-state), read from the original application, so that the part of InitGenesis
+// no real export reaches can be observed (exploration only: no registered check judges these lines).
+func completeGenesis(w *world.World, appState json.RawMessage) json.RawMessage {
+	var st map[string]json.RawMessage
+	if err := json.Unmarshal(appState, &st); err != nil {
+		panic(err)
+	}
+	cdc := app.MakeEncodingConfig().Marshaler
+	var gs mhubtypes.GenesisState
+	cdc.MustUnmarshalJSON(st[mhubtypes.ModuleName], &gs)
+	ctx := w.Ctx()
+	for _, es := range gs.ExternalStates {
+		es := es
+		chain := mhubtypes.ChainID(es.ChainId)
+		w.K.Mhub2.IterateUnbatchedSendToExternals(ctx, chain, func(s *mhubtypes.SendToExternal) bool {
+			es.UnbatchedSendToExternalTxs = append(es.UnbatchedSendToExternalTxs, s)
+			return false
+		})
+		for _, pb := range []byte{mhubtypes.SignerSetTxPrefixByte, mhubtypes.BatchTxPrefixByte, mhubtypes.ContractCallTxPrefixByte} {
+			w.K.Mhub2.IterateOutgoingTxsByType(ctx, chain, pb, func(_ []byte, otx mhubtypes.OutgoingTx) bool {
+				any, err := mhubtypes.PackOutgoingTx(otx)
+				if err != nil {
+					panic(err)
+				}
+				es.OutgoingTxs = append(es.OutgoingTxs, any)
+				return false
+			})
+		}
+	}
+	st[mhubtypes.ModuleName] = cdc.MustMarshalJSON(&gs)
+	bz, err := json.Marshal(st)
+	if err != nil {
+		panic(err)
+	}
+	return bz
+}
 
 // cmdGenesis: for every script and every chosen block boundary, run the script up to the boundary, export the
 // application state the production way (ExportAppStateAndValidators), initialise a fresh application from it
@@ -21,6 +62,7 @@ func cmdGenesis(args []string) {
 	out := fs.String("out", "", "output ndjson")
 	every := fs.Int("every", 0, "export at every k-th block boundary (0: one boundary per script, chosen by -pick)")
 	pick := fs.Int("pick", 1, "which boundary (1-based, modulo the number of boundaries) when -every=0")
+	complete := fs.Bool("complete", false, "add the pool and the outgoing txs of the original to the exported genesis before the import (exploration)")
 	fs.Parse(args)
 	f, err := os.Open(*in)
 	if err != nil {
@@ -100,6 +142,10 @@ func cmdGenesis(args []string) {
 				if err != nil {
 					experr = err.Error()
 					return
+				}
+				if *complete {
+					exp.AppState = completeGenesis(w, exp.AppState)
+					line["complete"] = true
 				}
 				w2 = world.NewFromExport(cfg, w.N, exp.AppState, nil, exp.Height, w.T)
 			}()
